@@ -1004,6 +1004,11 @@ def origins(prog: Program, fi: FuncInfo, expr: ast.AST | None, node: Node, _seen
             elif d.kind in ("assign", "walrus") and d.value is not None:
                 out |= origins(prog, fi, d.value, d.node, seen2)
             elif d.kind == "unpack" and d.value is not None:
+                if isinstance(d.value, (ast.Tuple, ast.List)) and d.index is not None and d.index < len(d.value.elts) \
+                        and not any(isinstance(x, ast.Starred) for x in d.value.elts) and isinstance(d.node.ast, ast.Assign) \
+                        and isinstance(d.node.ast.targets[0], (ast.Tuple, ast.List)) and len(d.node.ast.targets[0].elts) == len(d.value.elts):
+                    out |= origins(prog, fi, d.value.elts[d.index], d.node, seen2)  # a, b = x, y
+                    continue
                 for o in origins(prog, fi, d.value, d.node, seen2):
                     out.add(("unpack", o, d.index))
             elif d.kind == "for" and d.value is not None:
@@ -1052,6 +1057,9 @@ def origins(prog: Program, fi: FuncInfo, expr: ast.AST | None, node: Node, _seen
         return frozenset({("call", name)})
     if isinstance(expr, ast.UnaryOp) and isinstance(expr.op, ast.Not):
         return frozenset({("not", o) for o in origins(prog, fi, expr.operand, node, _seen)})
+    if isinstance(expr, ast.IfExp):
+        # a selection between two values is a copy of one of them (same as an if/else assignment)
+        return origins(prog, fi, expr.body, node, _seen) | origins(prog, fi, expr.orelse, node, _seen)
     if isinstance(expr, ast.Subscript):
         idx = " ".join(ast.unparse(expr.slice).split())
         return frozenset({("index", o, idx) for o in origins(prog, fi, expr.value, node, _seen)})
